@@ -965,7 +965,9 @@ class Ref:
         if self.isp("-") and self.peek(1)[0] == "eof":
             self.i += 1
             return ["irrelevant"]
-        if self.iskw("not"):
+        lead = self.peek()
+        if self.iskw("not") or (lead[0] == "name" and lead[1] == "not" and self.isp("(", 1)):
+            # at the very beginning of unary tests `not (` is the negation; everywhere else `not` is the name of the built-in function
             self.i += 1
             self.expect_p("(")
             items = self.bracketed(self.expr_list)
@@ -1555,7 +1557,7 @@ def replace_trailing_builtin(t):
 
 OPS_W = [(5, "+"), (3, "-"), (3, "*"), (2, "/"), (3, "**"), (3, "or"), (4, "and"), (2, "="), (1, "!="), (1, "<"), (1, "<="),
          (1, ">"), (1, ">="), (3, "in"), (2, "inlist"), (4, "between"), (4, "neg"), (3, "instof"), (4, "path"), (4, "filter"),
-         (3, "call"), (1, "callnamed"), (4, "if"), (3, "for"), (2, "some"), (2, "every"), (3, "fn"), (3, "list"), (2, "ctx"),
+         (3, "call"), (1, "notcall"), (1, "callnamed"), (4, "if"), (3, "for"), (2, "some"), (2, "every"), (3, "fn"), (3, "list"), (2, "ctx"),
          (2, "range"), (2, "ut")]
 
 
@@ -1583,6 +1585,9 @@ def gen_tree(src, d):
         return ["call", g(), ["pos", [g() for _ in range(src.int(0, 2))]]]
     if k == "callnamed":
         return ["call", g(), ["named", [[gen_name(src), g()] for _ in range(src.int(1, 2))]]]
+    if k == "notcall":
+        # the built-in function `not`: a name like any other, except at the very beginning of unary tests
+        return ["call", ["name", "not"], ["pos", [g()]]]
     if k == "if":
         return ["if", g(), g(), g()]
     if k == "for":
